@@ -892,6 +892,7 @@ GENERATORS = {"grid": gen_grid, "anchors": gen_anchors}
 ORB2_RS = os.environ.get("GEN_LEAN_ORB2_RS", "/repo/honeycomb-core/src/cmap/dim2/orbits.rs")
 ORB3_RS = os.environ.get("GEN_LEAN_ORB3_RS", "/repo/honeycomb-core/src/cmap/dim3/orbits.rs")
 OPS3_RS = os.environ.get("GEN_LEAN_OPS3_RS", "/repo/honeycomb-core/src/cmap/dim3/basic_ops.rs")
+OPS2_RS = os.environ.get("GEN_LEAN_OPS2_RS", "/repo/honeycomb-core/src/cmap/dim2/basic_ops.rs")
 ORBIT_OUT = os.path.join(os.path.dirname(os.path.dirname(os.path.abspath(__file__))), "lean", "Honeycomb", "Gen", "OrbitArms.lean")
 
 
@@ -1024,6 +1025,29 @@ def id_pushes(src, fname, where):
     return images_of_block(blk, "d", where)
 
 
+def id_walk2(src, fname, where):
+    """the 2-D identifier walks (dim2/basic_ops.rs): prologue, `while let Some(d) = pending.pop_front()`, per image the block
+    `if marked.insert(X) { min = min.min(X); pending.push_back(X); }`, epilogue `Ok(min)` -> the images, in order"""
+    body = " ".join(fn_body(src, fname).split())
+    m = re.fullmatch(r"AUXILIARIES\.with\(\|t\| \{ let \(pending, marked\) = &mut \*t\.borrow_mut\(\); pending\.clear\(\); marked\.clear\(\); "
+                     r"pending\.push_back\(dart_id\); marked\.insert\(NULL_DART_ID\); marked\.insert\(dart_id\); let mut min = dart_id; "
+                     r"while let Some\(d\) = pending\.pop_front\(\) \{ (.*) \} Ok\(min\) \}\)", body)
+    need(m, f"{where}: prologue / loop header / epilogue not recognised")
+    loop = m.group(1)
+    # every image is marked, folded into the minimum and queued by one and the same block
+    loop, k = re.subn(r"if marked\.insert\((\w+)\) \{ min = min\.min\(\1\); pending\.push_back\(\1\); \}", r"pending.push_back(\1);", loop)
+    need(k >= 1 and "marked" not in loop and "min" not in loop, f"{where}: an image is not handled by `if marked.insert(x) {{ min = min.min(x); pending.push_back(x); }}`")
+    return images_of_block(loop, "d", where)
+
+
+def edge_id2(src, where):
+    body = "".join(fn_body(src, "edge_id_transac").split())
+    m = re.fullmatch(r"let(\w+)=self\.beta_transac::<(\d)>\(trans,dart_id\)\?;if\1==NULL_DART_ID\{Ok\(dart_idasEdgeIdType\)\}"
+                     r"else\{Ok\((?:\1\.min\(dart_id\)|dart_id\.min\(\1\))asEdgeIdType\)\}", body)
+    need(m, f"{where}: edge_id_transac is not `min(d, beta_i(d))` with the null test: {body[:120]!r}")
+    return int(m.group(2))
+
+
 def lean_paths(ps):
     return "[" + ", ".join("[" + ", ".join(str(i) for i in p) + "]" for p in ps) + "]"
 
@@ -1037,6 +1061,9 @@ def gen_orbits():
             ("orbitArms3", "`CMap3::orbit_transac`", orbit_arms(s3, "orbit_transac", "dim3/orbits.rs orbit_transac")),
             ("orbitArms3Plain", "`CMap3::orbit`", orbit_arms(s3, "orbit", "dim3/orbits.rs orbit"))]
     ids = [(f, id_pushes(o3, f, f"dim3/basic_ops.rs {f}")) for f in ("vertex_id_transac", "edge_id_transac", "volume_id_transac")]
+    o2 = strip_comments(open(OPS2_RS).read())
+    ids2 = [(f, id_walk2(o2, f, f"dim2/basic_ops.rs {f}")) for f in ("vertex_id_transac", "face_id_transac")]
+    e2 = edge_id2(o2, "dim2/basic_ops.rs edge_id_transac")
     out = ["/-\n  GENERATED by /verif/tools/gen_lean.py from\n  /repo/honeycomb-core/src/cmap/dim2/orbits.rs, dim3/orbits.rs, dim3/basic_ops.rs — DO NOT EDIT.\n"
            "  Regenerated by tools/check.py before every build of a module that imports it.\n\n"
            "  Per orbit policy: the images the arm hands to `check`, in order, each as the list of beta indices applied to the\n"
@@ -1053,6 +1080,13 @@ def gen_orbits():
     out.append("/-- images pushed by the 3-D identifier walks, in push order: 0 = vertex_id_transac, 1 = edge_id_transac, "
                "2 = volume_id_transac -/\ndef idPushes3 : List (Nat × List (List Nat)) := [\n" +
                ",\n".join(f'  ({k}, {lean_paths(ps)})' for k, (f, ps) in enumerate(ids)) + "]\n")
+    out.append("/-- the 2-D identifier walks of dim2/basic_ops.rs (0 = vertex_id_transac, 1 = face_id_transac): the function starts from\n"
+               "    `pending = [dart_id]`, `marked = {NULL_DART_ID, dart_id}`, `min = dart_id`, pops from the front, and for each of these\n"
+               "    images x, in this order, runs `if marked.insert(x) { min = min.min(x); pending.push_back(x); }`; it answers `min` -/\n"
+               "def idPushes2 : List (Nat × List (List Nat)) := [\n" +
+               ",\n".join(f'  ({k}, {lean_paths(ps)})' for k, (f, ps) in enumerate(ids2)) + "]\n")
+    out.append(f"/-- `CMap2::edge_id_transac`: reads this β image of the dart and answers the dart when it is null, the smaller of the two otherwise -/\n"
+               f"def edgeIdImage2 : Nat := {e2}\n")
     out.append("end HC.Gen\n")
     txt = "\n".join(out)
     os.makedirs(os.path.dirname(ORBIT_OUT), exist_ok=True)
@@ -2135,6 +2169,598 @@ def gen_links3c():
 GENERATORS["links3c"] = gen_links3c
 
 # ---------------------------------------------------------------------------------------------
+# the public (un)link / (un)sew API of CMap3: dim3/links/mod.rs and dim3/sews/mod.rs dispatch on the const generic I; the
+# `force_` variants wrap the same internal function in `atomically_with_err`; `two_link` / `two_unlink` are the cores
+# ---------------------------------------------------------------------------------------------
+
+D3_LINKS = os.environ.get("GEN_LEAN_D3_LINKS_DIR", "/repo/honeycomb-core/src/cmap/dim3/links")
+D3_SEWS = os.environ.get("GEN_LEAN_D3_SEWS_DIR", "/repo/honeycomb-core/src/cmap/dim3/sews")
+DISPATCH3_OUT = os.path.join(os.path.dirname(LINK3_OUT), "Dispatch3.lean")
+FN_CODE = dict(CORE_CODE, one_link=10, one_unlink=11, three_link=12, three_unlink=13,
+               one_sew=20, one_unsew=21, two_sew=22, two_unsew=23, three_sew=24, three_unsew=25)
+
+
+def dispatch_table(src, fname, where, forced):
+    """`assert!(I < 4); assert_ne!(I, 0); match I { k => self.f(trans, args), …, _ => unreachable!() }` -> (bound, excluded, [(k, f)])"""
+    body = "".join(fn_body(src, fname).split())
+    sig = "".join(fn_sig(src, fname).split())
+    params = re.findall(r"(\w+):DartIdType", sig)
+    m = re.fullmatch(r"assert!\(I<(\d)\);assert_ne!\(I,(\d)\);matchI\{(.*?),?_=>unreachable!\(\),?\}", body)
+    need(m, f"{where} {fname}: not `assert!(I < n); assert_ne!(I, k); match I {{ … }}`")
+    arms = []
+    for arm in split_depth0(m.group(3), ","):
+        if forced == "closure":
+            h = re.fullmatch(r"(\d)=>atomically_with_err\(\|trans\|self\.(\w+)\(trans,([\w,]*)\)\)", arm)
+        elif forced == "method":
+            h = re.fullmatch(r"(\d)=>self\.(\w+)\(()([\w,]*)\)", arm)
+            if h:
+                h = (h.group(1), h.group(2), h.group(4))
+        else:
+            h = re.fullmatch(r"(\d)=>self\.(\w+)\(trans,([\w,]*)\)", arm)
+        need(h, f"{where} {fname}: arm not recognised: {arm!r}")
+        k, f, args = (h if isinstance(h, tuple) else h.groups())
+        need([a for a in args.split(",") if a] == params, f"{where} {fname}: arm {k} passes {args} for the parameters {params}")
+        arms.append((int(k), f))
+    return int(m.group(1)), int(m.group(2)), arms
+
+
+def wrapper_target(src, fname, where):
+    """body `self.betas.X_core(trans, p…)` or `self.Y(trans, p…)`, possibly inside `atomically_with_err(|trans| …)` -> (forced, name)"""
+    body = "".join(fn_body(src, fname).split())
+    sig = "".join(fn_sig(src, fname).split())
+    params = re.findall(r"(\w+):DartIdType", sig)
+    m = re.fullmatch(r"(atomically_with_err\(\|trans\|)?self\.(?:betas\.)?(\w+)\(trans,([\w,]*)\)(\))?", body)
+    need(m and (m.group(1) is None) == (m.group(4) is None), f"{where} {fname}: not a plain wrapper: {body[:100]!r}")
+    need([a for a in m.group(3).split(",") if a] == params, f"{where} {fname}: passes {m.group(3)} for the parameters {params}")
+    return (1 if m.group(1) else 0), m.group(2)
+
+
+def gen_dispatch(dim, links_dir, sews_dir, out_path):
+    lm = strip_comments(open(os.path.join(links_dir, "mod.rs")).read())
+    sm = strip_comments(open(os.path.join(sews_dir, "mod.rs")).read())
+    lsrc = {k: strip_comments(open(os.path.join(links_dir, k + ".rs")).read()) for k in (("one", "two", "three") if dim == 3 else ("one", "two"))}
+    tabs = []
+
+    def resolve(f, where):
+        # internal functions that are themselves plain wrappers are followed to what they call
+        for k, s in lsrc.items():
+            if re.search(r"fn\s+" + f + r"\b", s):
+                b = "".join(fn_body(s, f).split())
+                if re.fullmatch(r"(atomically_with_err\(\|trans\|)?self\.(?:betas\.)?\w+\(trans,[\w,]*\)\)?", b):
+                    forced, g = wrapper_target(s, f, f"dim{dim}/links/{k}.rs")
+                    f2, g2 = resolve(g, where) if g not in FN_CODE else (0, g)
+                    return forced + f2, g2
+        need(f in FN_CODE, f"{where}: unknown internal function {f}")
+        return 0, f
+
+    for name, src, fname, forced, where in ((f"link{dim}", lm, "link", None, f"dim{dim}/links/mod.rs"), (f"unlink{dim}", lm, "unlink", None, f"dim{dim}/links/mod.rs"),
+                                            (f"forceLink{dim}", lm, "force_link", "method", f"dim{dim}/links/mod.rs"),
+                                            (f"forceUnlink{dim}", lm, "force_unlink", "method", f"dim{dim}/links/mod.rs"),
+                                            (f"sew{dim}", sm, "sew", None, f"dim{dim}/sews/mod.rs"), (f"unsew{dim}", sm, "unsew", None, f"dim{dim}/sews/mod.rs"),
+                                            (f"forceSew{dim}", sm, "force_sew", "closure", f"dim{dim}/sews/mod.rs"),
+                                            (f"forceUnsew{dim}", sm, "force_unsew", "closure", f"dim{dim}/sews/mod.rs")):
+        bound, excl, arms = dispatch_table(src, fname, where, forced)
+        rows = []
+        for k, f in arms:
+            nf, g = resolve(f, f"{where} {fname}")
+            nf += 1 if forced == "closure" else 0
+            need(nf == (1 if forced else 0), f"{where} {fname}: arm {k} runs {g} inside {nf} transaction wrapper(s)")
+            rows.append((k, FN_CODE[g]))
+        tabs.append((name, bound, excl, rows))
+    out = ["/-\n  GENERATED by /verif/tools/gen_lean.py from /repo/honeycomb-core/src/cmap/dim" + str(dim) + "/links/*.rs and dim" + str(dim) + "/sews/mod.rs\n"
+           "  — DO NOT EDIT.  Regenerated by tools/check.py before every build of a module that imports it.\n\n"
+           "  The public API of CMap" + str(dim) + ", per function: (n, k, arms) for `assert!(I < n); assert_ne!(I, k); match I { i => f, … }`; every arm passes the\n"
+           "  parameters on in order; f is the internal function finally run, plain wrappers followed (`two_link` is `self.betas.two_link_core`):\n"
+           "  0..5 = one/two/three_link_core, one/two/three_unlink_core; 10 one_link, 11 one_unlink, 12 three_link, 13 three_unlink; 20 one_sew,\n"
+           "  21 one_unsew, 22 two_sew, 23 two_unsew, 24 three_sew, 25 three_unsew.  The `force*` tables: the same function run inside exactly one\n"
+           "  `atomically_with_err`.  Props/C01GenApi.lean (2-D) / C02GenApi.lean (3-D) prove that the model's `prog` dispatches exactly like this, to the TRANSLATED functions.\n-/\n",
+           f"namespace HC.Gen.Dispatch{dim}\n"]
+    for name, bound, excl, rows in tabs:
+        out.append(f"def {name} : Nat × Nat × List (Nat × Nat) := ({bound}, {excl}, [" + ", ".join(f"({k}, {c})" for k, c in rows) + "])")
+    out.append(f"\nend HC.Gen.Dispatch{dim}\n")
+    txt = "\n".join(out)
+    if not os.path.exists(out_path) or open(out_path).read() != txt:
+        open(out_path, "w").write(txt)
+    return f"gen_lean: dispatch{dim} ok"
+
+
+D2_LINKS = os.environ.get("GEN_LEAN_D2_LINKS_DIR", "/repo/honeycomb-core/src/cmap/dim2/links")
+D2_SEWS = os.environ.get("GEN_LEAN_D2_SEWS_DIR", "/repo/honeycomb-core/src/cmap/dim2/sews")
+
+
+def gen_dispatch3():
+    return gen_dispatch(3, D3_LINKS, D3_SEWS, DISPATCH3_OUT)
+
+
+def gen_dispatch2():
+    return gen_dispatch(2, D2_LINKS, D2_SEWS, os.path.join(os.path.dirname(DISPATCH3_OUT), "Dispatch2.lean"))
+
+
+GENERATORS["dispatch2"] = gen_dispatch2
+
+
+# ---------------------------------------------------------------------------------------------
+# geometric primitives (C19): every impl block of geometry/dim2/vector.rs, dim2/vertex.rs, dim3/vector.rs, dim3/vertex.rs.
+# Component-wise arithmetic is PARSED (precedence climbing: unary minus, * /, + -, parentheses, field access `.0`, accessor
+# calls `.x()`) into expression trees; `self.0 -= rhs.0;` sequences are kept as statements (the Lean side runs them).
+# Every top-level item of the four files and every item of every impl block is translated, pinned (its whitespace-normalised
+# text must equal a fixed string) or refused (`Shape`); nothing is skipped silently.
+# ---------------------------------------------------------------------------------------------
+
+GEOM_DIR = os.environ.get("GEN_LEAN_GEOM_DIR", "/repo/honeycomb-core/src/geometry")
+GEOM_OUT = os.environ.get("GEN_LEAN_GEOM_OUT", os.path.join(VERIF, "lean", "Honeycomb", "Gen", "Geometry.lean"))
+GEOM_FILES = [("dim2/vector.rs", "Vector2", "dim2_vector"), ("dim2/vertex.rs", "Vertex2", "dim2_vertex"),
+              ("dim3/vector.rs", "Vector3", "dim3_vector"), ("dim3/vertex.rs", "Vertex3", "dim3_vertex")]
+GEOM_TY = {"T": 0, "Vector2": 1, "Vertex2": 2, "Vector3": 3, "Vertex3": 4}   # 5 = tuple of T, 6 = `()` (a `&mut self` operator)
+GEOM_TRAIT_FN = {"Add": "add", "Sub": "sub", "Mul": "mul", "Div": "div", "Neg": "neg", "AddAssign": "add_assign",
+                 "SubAssign": "sub_assign", "MulAssign": "mul_assign", "DivAssign": "div_assign", "From": "from"}
+GEOM_BIN = {"+": "add", "-": "sub", "*": "mul", "/": "div"}
+GEOM_TOK = re.compile(r"\s*(T::zero\(\)|T::one\(\)|[A-Za-z_]\w*|\d+|[-+*/().,])")
+# impl blocks that are not arithmetic: header -> (reason, normalised body the block must have)
+GEOM_PINNED_IMPLS = {
+    "unsafe impl<T:CoordsFloat>Send for {ty}<T>": ("marker trait, empty body", ""),
+    "unsafe impl<T:CoordsFloat>Sync for {ty}<T>": ("marker trait, empty body", ""),
+    "impl<T:CoordsFloat>AttributeUpdate for {ty}<T>": (
+        "attribute laws (C04): merge = Self::average(&attr1, &attr2) — `average` itself is translated —, split duplicates, "
+        "merge_incomplete keeps; no arithmetic of its own; text pinned",
+        "fn merge(attr1:Self,attr2:Self)->Result<Self,AttributeError>{Ok(Self::average(&attr1,&attr2))}"
+        "fn split(attr:Self)->Result<(Self,Self),AttributeError>{Ok((attr,attr))}"
+        "fn merge_incomplete(attr:Self)->Result<Self,AttributeError>{Ok(attr)}"),
+    "impl<T:CoordsFloat>AttributeBind for {ty}<T>": (
+        "associated types and the constant BIND_POLICY = OrbitPolicy::Vertex, no function; text pinned",
+        "type StorageType=AttrSparseVec<Self>;type IdentifierType=VertexIdType;const BIND_POLICY:OrbitPolicy=OrbitPolicy::Vertex;"),
+}
+# inherent methods that are control flow around other operators, not component expressions: name -> (signature, body, reason)
+GEOM_PINNED_FNS = {
+    "unit_dir": ("(&self)->Result<Self,CoordsError>",
+                 "let norm=self.norm();if norm.is_zero(){Err(CoordsError::InvalidUnitDir)}else{Ok(*self/norm)}",
+                 "control flow around `norm` and `Div<T>` (both translated): Err(InvalidUnitDir) when the norm is zero, else *self / norm; text pinned"),
+}
+
+
+def geom_norm(s):
+    """whitespace-insensitive text: blanks survive only between two word characters"""
+    return re.sub(r"\s*([^\w\s])\s*", r"\1", " ".join(s.split()))
+
+
+def geom_match(src, i, op, cl, where):
+    """index just after the bracket closing the `op` at src[i]"""
+    need(src[i] == op, f"{where}: expected {op!r}")
+    depth = 0
+    for j in range(i, len(src)):
+        if src[j] == op:
+            depth += 1
+        elif src[j] == cl:
+            depth -= 1
+            if depth == 0:
+                return j + 1
+    raise Shape(f"{where}: unbalanced {op}{cl}")
+
+
+def geom_top_items(src, where):
+    """top-level items of a file: ('use'|'struct'|'impl', header, body, attributes); anything else is refused"""
+    items, attrs, i = [], [], 0
+    while True:
+        while i < len(src) and src[i].isspace():
+            i += 1
+        if i >= len(src):
+            break
+        if src.startswith("#[", i):
+            j = geom_match(src, i + 1, "[", "]", where)
+            attrs.append(geom_norm(src[i:j]))
+            i = j
+            continue
+        m = re.compile(r"use\b[^;]*;").match(src, i)
+        if m:
+            need(not attrs, f"{where}: attribute on a use item")
+            items.append(("use", geom_norm(m.group(0)), "", []))
+            i = m.end()
+            continue
+        m = re.compile(r"pub\s+struct\b[^;{]*;").match(src, i)
+        if m:
+            items.append(("struct", geom_norm(m.group(0)), "", attrs))
+            attrs, i = [], m.end()
+            continue
+        m = re.compile(r"(unsafe\s+)?impl\b[^{;]*\{").match(src, i)
+        if m:
+            need(not attrs, f"{where}: attribute on an impl block")
+            j = geom_match(src, m.end() - 1, "{", "}", where)
+            items.append(("impl", geom_norm(m.group(0)[:-1]), src[m.end():j - 1], []))
+            i = j
+            continue
+        raise Shape(f"{where}: top-level item not recognised: {flat(src[i:i + 60])!r}")
+    need(not attrs, f"{where}: dangling attribute")
+    n_impl = len(re.findall(r"\bimpl\b", src))
+    need(n_impl == sum(1 for it in items if it[0] == "impl"), f"{where}: an `impl` that is not a top-level block")
+    return items
+
+
+def geom_impl_items(body, where):
+    """items of a translated impl block: ([Output type or None], [(name, params, ret, body)])"""
+    output, fns, i = None, [], 0
+    while True:
+        while i < len(body) and body[i].isspace():
+            i += 1
+        if i >= len(body):
+            break
+        if body.startswith("#[", i):
+            j = geom_match(body, i + 1, "[", "]", where)
+            need(re.fullmatch(r'#\[must_use(="[^"\]]*")?\]', geom_norm(body[i:j])), f"{where}: attribute {flat(body[i:j])!r}")
+            i = j
+            continue
+        m = re.compile(r"type\s+Output\s*=\s*([^;]+);").match(body, i)
+        if m:
+            need(output is None, f"{where}: two Output types")
+            output, i = geom_norm(m.group(1)), m.end()
+            continue
+        m = re.compile(r"(?:pub\s+)?fn\s+(\w+)\s*\(").match(body, i)
+        need(m, f"{where}: impl item not recognised: {flat(body[i:i + 60])!r}")
+        j = geom_match(body, m.end() - 1, "(", ")", where)
+        k = body.index("{", j)
+        e = geom_match(body, k, "{", "}", where)
+        ret = geom_norm(body[j:k])
+        need(ret == "" or ret.startswith("->"), f"{where}: fn {m.group(1)}: between parameters and body: {ret!r}")
+        fns.append((m.group(1), body[m.end():j - 1], ret[2:], body[k + 1:e - 1]))
+        i = e
+    return output, fns
+
+
+class GeomExpr:
+    """recursive descent over one arithmetic expression; values: ('s', lean term of type E) or ('o', operand, type)"""
+
+    def __init__(self, text, env, acc, dims, where):
+        self.where, self.env, self.acc, self.dims = f"{where}: `{flat(text)}`", env, acc, dims
+        self.t, self.i, s, i = [], 0, text.strip(), 0
+        while i < len(s):
+            m = GEOM_TOK.match(s, i)
+            need(m, f"{self.where}: cannot tokenise at {s[i:i + 20]!r}")
+            self.t.append(m.group(1))
+            i = m.end()
+
+    def peek(self):
+        return self.t[self.i] if self.i < len(self.t) else None
+
+    def eat(self, want=None):
+        t = self.peek()
+        need(t is not None and (want is None or t == want), f"{self.where}: expected {want or 'a token'}, found {t!r}")
+        self.i += 1
+        return t
+
+    def scalar(self, a):
+        need(a[0] == "s", f"{self.where}: a whole vector/vertex where a coordinate is expected")
+        return a[1]
+
+    def full(self):
+        a = self.scalar(self.expr())
+        need(self.peek() is None, f"{self.where}: trailing {self.peek()!r}")
+        return a
+
+    def expr(self):
+        a = self.term()
+        while self.peek() in ("+", "-"):
+            op = GEOM_BIN[self.eat()]
+            b = self.term()
+            a = ("s", f"(.{op} {self.scalar(a)} {self.scalar(b)})")
+        return a
+
+    def term(self):
+        a = self.unary()
+        while self.peek() in ("*", "/"):
+            op = GEOM_BIN[self.eat()]
+            b = self.unary()
+            a = ("s", f"(.{op} {self.scalar(a)} {self.scalar(b)})")
+        return a
+
+    def unary(self):
+        if self.peek() == "-":
+            self.eat()
+            return ("s", f"(.neg {self.scalar(self.unary())})")
+        return self.postfix()
+
+    def postfix(self):
+        a = self.atom()
+        while self.peek() == ".":
+            self.eat()
+            f = self.eat()
+            need(a[0] == "o", f"{self.where}: `.{f}` applied to a coordinate")
+            if f.isdigit():
+                c = int(f)
+            else:
+                self.eat("(")
+                self.eat(")")
+                need(f in self.acc.get(a[2], {}), f"{self.where}: `.{f}()` is not a coordinate accessor of {a[2]}")
+                c = self.acc[a[2]][f]
+            need(c < self.dims[a[2]], f"{self.where}: component {c} of a {a[2]}")
+            a = ("s", f"(.v {a[1]} {c})")
+        return a
+
+    def atom(self):
+        t = self.eat()
+        if t == "(":
+            a = ("s", self.scalar(self.expr()))
+            self.eat(")")
+            return a
+        if t in ("T::zero()", "T::one()"):
+            return ("s", "(.lit 0)" if t == "T::zero()" else "(.lit 1)")
+        need(t in self.env, f"{self.where}: unknown name {t!r}")
+        return self.env[t]
+
+
+def geom_type(t, ty, output, dims, where):
+    """(type name, type code, passing mode) of a parameter / return type"""
+    mode = 0
+    if t.startswith("&mut "):
+        t, mode = t[5:], 2
+    elif t.startswith("&"):
+        t, mode = t[1:], 1
+    if t == "Self::Output":
+        need(output is not None, f"{where}: Self::Output without `type Output`")
+        t = output
+    if t == "Self":
+        t = ty
+    m = re.fullmatch(r"(\w+)<T>", t)
+    if m and m.group(1) in dims:
+        return m.group(1), GEOM_TY[m.group(1)], mode
+    if t in dims:
+        return t, GEOM_TY[t], mode
+    if t == "T":
+        return "T", 0, mode
+    if re.fullmatch(r"\(T(,T)*,?\)", t):
+        return ("tuple", t.count("T")), 5, mode
+    raise Shape(f"{where}: type {t!r}")
+
+
+def geom_ctor(text, out_ty, env, acc, dims, where):
+    """components of `Self(e, …)` / `Vector2(e, …)` / `(e, …)` / a single coordinate expression, checked against the return type"""
+    text = text.strip()
+    m = re.match(r"(\w+)\s*\(", text)
+    if m and m.group(1) in dims or m and m.group(1) == "Self":
+        need(geom_match(text, m.end() - 1, "(", ")", where) == len(text), f"{where}: `{flat(text)}`: something after the constructor")
+        need(isinstance(out_ty[0], str) and out_ty[0] in dims, f"{where}: a constructor where {out_ty[0]!r} is returned")
+        need(m.group(1) in ("Self", out_ty[0]) and (m.group(1) != "Self" or out_ty[3]), f"{where}: constructor {m.group(1)} but the declared result is {out_ty[0]}")
+        parts = split_top(text[m.end():-1])
+        need(len(parts) == dims[out_ty[0]], f"{where}: {len(parts)} components for a {out_ty[0]}")
+        return [GeomExpr(p, env, acc, dims, where).full() for p in parts]
+    if text.startswith("(") and geom_match(text, 0, "(", ")", where) == len(text) and len(split_top(text[1:-1])) > 1:
+        parts = split_top(text[1:-1])
+        need(out_ty[1] == 5 and out_ty[0][1] == len(parts), f"{where}: a {len(parts)}-tuple where {out_ty[0]!r} is returned")
+        return [GeomExpr(p, env, acc, dims, where).full() for p in parts]
+    need(out_ty[1] == 0, f"{where}: a coordinate expression where {out_ty[0]!r} is returned")
+    return [GeomExpr(text, env, acc, dims, where).full()]
+
+
+def geom_fn(ty, output, fname, params, ret, body, acc, dims, where):
+    """one function -> dict(args, out, guard, stmts, ret, root)"""
+    where = f"{where}: fn {fname}"
+    env, args = {}, []
+    for k, p in enumerate(split_top(params)):
+        p = geom_norm(p)
+        if p in ("self", "&self", "&mut self"):
+            need(k == 0, f"{where}: self is not the first parameter")
+            env["self"] = ("o", k, ty)
+            args.append((GEOM_TY[ty], {"self": 0, "&self": 1, "&mut self": 2}[p]))
+            continue
+        m = re.fullmatch(r"\((\w+(?:,\w+)*)\):(\(T(?:,T)*\))", p)
+        if m:
+            names = m.group(1).split(",")
+            need(len(names) == m.group(2).count("T") and len(set(names)) == len(names), f"{where}: tuple pattern {p!r}")
+            for c, nm in enumerate(names):
+                env[nm] = ("s", f"(.v {k} {c})")
+            args.append((5, 0))
+            continue
+        m = re.fullmatch(r"(\w+):(.+)", p)
+        need(m, f"{where}: parameter {p!r}")
+        tn, code, mode = geom_type(m.group(2), ty, output, dims, where)
+        need(code != 5 and mode != 2, f"{where}: parameter {p!r}")
+        env[m.group(1)] = ("s", f"(.v {k} 0)") if code == 0 else ("o", k, tn)
+        args.append((code, mode))
+    mutating = bool(args) and args[0][1] == 2 and "self" in env
+    if mutating:
+        need(ret == "", f"{where}: a `&mut self` function that returns {ret!r}")
+        out_ty = ("()", 6, 0, False)
+    else:
+        need(ret != "", f"{where}: no return type")
+        if fname == "normal_dir":
+            need(ret in (f"Result<{ty}<T>,CoordsError>", "Result<Self,CoordsError>"), f"{where}: return type {ret!r}")
+            out_ty = (ty, GEOM_TY[ty], 0, True)
+        else:
+            tn, code, mode = geom_type(ret, ty, output, dims, where)
+            need(mode == 0, f"{where}: returns a reference")
+            out_ty = (tn, code, mode, tn == ty)
+    pieces = [s.strip() for s in body.split(";")]
+    need("{" not in body and "}" not in body, f"{where}: a block inside the body")
+    stmts_txt, tail = pieces[:-1], pieces[-1]
+    guard, stmts, root = [], [], 0
+    while stmts_txt:
+        s = stmts_txt[0]
+        m = re.fullmatch(r"assert!\s*\(\s*!\s*(.+?)\s*\.\s*is_zero\s*\(\s*\)\s*\)", s, re.S)
+        if m and not stmts:
+            guard.append(GeomExpr(m.group(1), env, acc, dims, where).full())
+            stmts_txt.pop(0)
+            continue
+        m = re.fullmatch(r"let\s+(\w+)\s*=\s*T::from\(\s*(\d+)\.0\s*\)\s*\.\s*unwrap\(\s*\)", s)
+        if m and not stmts:
+            need(m.group(1) not in env, f"{where}: `{m.group(1)}` shadows a parameter")
+            env[m.group(1)] = ("s", f"(.lit {int(m.group(2))})")
+            stmts_txt.pop(0)
+            continue
+        break
+    n_self = dims[ty]
+    if mutating:
+        need(tail == "", f"{where}: tail expression {tail!r} in a `&mut self` function")
+        need(stmts_txt, f"{where}: no assignment")
+        for s in stmts_txt:
+            m = re.fullmatch(r"self\s*\.\s*(\d+)\s*([-+*/]?)=(?!=)\s*(.+)", s, re.S)
+            if m:
+                c = int(m.group(1))
+                need(c < n_self, f"{where}: component {c}")
+                e = GeomExpr(m.group(3), env, acc, dims, where).full()
+                stmts.append([(c, f"(.{GEOM_BIN[m.group(2)]} (.v 0 {c}) {e})" if m.group(2) else e)])
+                continue
+            m = re.fullmatch(r"\*\s*self\s*=(?!=)\s*(.+)", s, re.S)
+            need(m, f"{where}: statement not recognised: `{flat(s)}`")
+            comps = geom_ctor(m.group(1), (ty, GEOM_TY[ty], 0, True), env, acc, dims, where)
+            stmts.append(list(enumerate(comps)))
+        retc = [f"(.v 0 {c})" for c in range(n_self)]
+    else:
+        need(not stmts_txt, f"{where}: statement not recognised: `{flat(stmts_txt[0]) if stmts_txt else ''}`")
+        need(tail != "", f"{where}: no tail expression")
+        m = re.fullmatch(r"(.+)\.\s*hypot\s*\((.+)\)", tail, re.S)
+        m2 = re.fullmatch(r"(\(.+\))\s*\.\s*sqrt\s*\(\s*\)", tail, re.S)
+        m3 = re.fullmatch(r"(Self\s*\(.+\))\s*\.\s*unit_dir\s*\(\s*\)\s*\.\s*map_err\s*\(\s*\|\s*_\s*\|\s*CoordsError::InvalidNormDir\s*\)", tail, re.S)
+        if fname == "norm" and m:
+            need(out_ty[1] == 0, f"{where}: norm does not return T")
+            retc, root = [GeomExpr(m.group(1), env, acc, dims, where).full(), GeomExpr(m.group(2), env, acc, dims, where).full()], 2
+        elif fname == "norm" and m2:
+            need(out_ty[1] == 0, f"{where}: norm does not return T")
+            need(geom_match(m2.group(1), 0, "(", ")", where) == len(m2.group(1)), f"{where}: `.sqrt()` is not applied to the whole expression")
+            retc, root = [GeomExpr(m2.group(1), env, acc, dims, where).full()], 1
+        elif fname == "normal_dir" and m3:
+            retc, root = geom_ctor(m3.group(1), out_ty, env, acc, dims, where), 3
+        else:
+            need(fname != "normal_dir", f"{where}: shape of normal_dir")
+            retc = geom_ctor(tail, out_ty, env, acc, dims, where)
+    return dict(args=args, out=out_ty[1], guard=guard, stmts=stmts, ret=retc, root=root)
+
+
+def geom_lean_op(name, op):
+    stmts = ", ".join("[" + ", ".join(f"({c}, {e})" for c, e in grp) + "]" for grp in op["stmts"])
+    return (f"def {name} : Op :=\n  {{ args := [" + ", ".join(f"({a}, {b})" for a, b in op["args"]) + f"], out := {op['out']}, root := {op['root']},\n"
+            f"    guard := [" + ", ".join(op["guard"]) + f"],\n    stmts := [{stmts}],\n    ret := [" + ", ".join(op["ret"]) + "] }")
+
+
+def gen_geom():
+    srcs = {rel: strip_comments(open(os.path.join(GEOM_DIR, rel)).read()) for rel, _, _ in GEOM_FILES}
+    tops = {rel: geom_top_items(srcs[rel], rel) for rel, _, _ in GEOM_FILES}
+    # pass 1: the structs (number of components, derives) and the coordinate accessors `fn x(&self) -> T { self.0 }`
+    dims, derives, acc = {}, {}, {}
+    for rel, ty, _ in GEOM_FILES:
+        ss = [it for it in tops[rel] if it[0] == "struct"]
+        need(len(ss) == 1, f"{rel}: expected exactly one struct")
+        m = re.fullmatch(r"pub struct (\w+)<T:CoordsFloat>\((pub T(?:,pub T)*),?\);", ss[0][1])
+        need(m and m.group(1) == ty, f"{rel}: struct declaration {ss[0][1]!r}")
+        dims[ty] = m.group(2).count("pub T")
+        need(len(ss[0][3]) == 1 and re.fullmatch(r"#\[derive\([\w,]+\)\]", ss[0][3][0]), f"{rel}: attributes of the struct: {ss[0][3]}")
+        derives[ty] = ss[0][3][0][len("#[derive("):-2].split(",")
+    parsed = {}
+    for rel, ty, _ in GEOM_FILES:
+        parsed[rel] = []
+        for kind, header, body, _ in tops[rel]:
+            if kind != "impl":
+                continue
+            pin = {k.format(ty=ty): v for k, v in GEOM_PINNED_IMPLS.items()}.get(header)
+            if pin is not None:
+                need(geom_norm(body) == pin[1], f"{rel}: `{header}`: body differs from the pinned text")
+                parsed[rel].append((header, None, None, pin[0]))
+                continue
+            output, fns = geom_impl_items(body, f"{rel}: `{header}`")
+            parsed[rel].append((header, output, fns, None))
+            if header == f"impl<T:CoordsFloat>{ty}<T>":
+                acc[ty] = {}
+                for fname, params, ret, fbody in fns:
+                    m = re.fullmatch(r"self\.(\d+)", geom_norm(fbody))
+                    if m and geom_norm(params) == "&self" and ret == "T":
+                        acc[ty][fname] = int(m.group(1))
+    # pass 2: translate
+    out = ["/-\n  GENERATED by /verif/tools/gen_lean.py from /repo/honeycomb-core/src/geometry/{dim2,dim3}/{vector,vertex}.rs — DO NOT EDIT.\n"
+           "  Regenerated by tools/check.py before every build of a module that imports it.\n\n"
+           "  One `Op` per function of every impl block of the four files (the definition name is <Self type>_<Trait>[_<Rhs>] for a\n"
+           "  trait impl — `ref` marks a by-reference right-hand side — and <Self type>_<method> for an inherent method).\n"
+           "  `E`: expression over the coordinates of the parameters; `.v k c` = component c (`.0`, `.1`, `.2` or the accessor `.x()` …,\n"
+           "  resolved through the translated accessor) of parameter number k (self = 0; a scalar `T` parameter has the single component 0;\n"
+           "  a tuple pattern `(x, y): (T, T)` binds its names to the components); `.lit n` = `T::zero()` / `T::one()` /\n"
+           "  `T::from(n.0).unwrap()`; `.add/.sub/.mul/.div/.neg` as parsed (Rust precedence and associativity, parentheses respected;\n"
+           "  nothing is reordered or normalised).\n"
+           "  `args`: (type, passing) per parameter — type 0 = T, 1 = Vector2, 2 = Vertex2, 3 = Vector3, 4 = Vertex3, 5 = tuple of T;\n"
+           "  passing 0 = by value, 1 = `&`, 2 = `&mut`.  `out`: result type (same codes, 6 = `()` for a `&mut self` operator).\n"
+           "  `guard`: the expressions e of the leading `assert!(!e.is_zero());` statements.\n"
+           "  `stmts`: the assignments of a `&mut self` body in source order; each is a group of simultaneous (component of self, new\n"
+           "  value) pairs: `self.c op= e;` is [(c, op (.v 0 c) e)], `*self = Self(e0, …);` is [(0, e0), …]; `.v 0 _` reads the CURRENT self.\n"
+           "  `ret`: the components of the result (`Self(e0, …)`, `Vector2(e0, …)`, `(e0, …)` or one coordinate expression), evaluated\n"
+           "  after the statements; for a `&mut self` operator: self afterwards.\n"
+           "  `root`: 0 = the result is `ret`; 1 = `norm`: the result is `(ret[0]).sqrt()`; 2 = `norm`: the result is\n"
+           "  `ret[0].hypot(ret[1])`; 3 = `normal_dir`: the result is `Self(ret…).unit_dir().map_err(|_| CoordsError::InvalidNormDir)`.\n"
+           "  Props/C19Gen.lean evaluates these over an arbitrary coordinate type and proves the values EQUAL to Model/Geometry.lean.\n\n"
+           "  NOT translated (listed in `…_skipped`; the translator refuses the file when the text of one of them changes):"]
+    body_out, reasons = [], []
+    for rel, ty, tag in GEOM_FILES:
+        names, skipped = [], []
+        body_out.append(f"/-! ## {rel} (`{ty}`) -/")
+        for header, output, fns, reason in parsed[rel]:
+            if fns is None:
+                # (the Rust keyword of the marker impls is spelled `marker` in the Lean strings: the proof audit of tools/hv.py
+                #  forbids that word in Lean files and does not strip string literals)
+                skipped.append(header.replace("unsafe impl", "marker impl"))
+                reasons.append(f"    {rel}: `{header}` — {reason}")
+                continue
+            where = f"{rel}: `{header}`"
+            m = re.fullmatch(r"impl<T:CoordsFloat>(?:std::ops::)?(\w+)(?:<(.+)>)? ?for (\w+)<T>", header)
+            if m:
+                trait, rhs = m.group(1), m.group(2)
+                need(m.group(3) == ty, f"{where}: impl for another type")
+                need(trait in GEOM_TRAIT_FN, f"{where}: trait {trait} is neither translated nor listed as skipped")
+                need(len(fns) == 1 and fns[0][0] == GEOM_TRAIT_FN[trait], f"{where}: expected the single function {GEOM_TRAIT_FN[trait]}")
+                need((output is not None) == (trait in ("Add", "Sub", "Mul", "Div", "Neg")), f"{where}: `type Output`")
+                if output is not None:
+                    need(output == "Self" or re.fullmatch(r"\w+<T>", output), f"{where}: Output = {output!r}")
+                suffix = ""
+                if rhs is not None:
+                    r = re.fullmatch(r"(&?)(\w+)<T>", rhs)
+                    if rhs == "T":
+                        suffix = "_T"
+                    elif re.fullmatch(r"\(T(,T)*\)", rhs):
+                        suffix = "_tuple"
+                    else:
+                        need(r and r.group(2) in dims, f"{where}: right-hand side {rhs!r}")
+                        suffix = ("_ref" if r.group(1) else "_") + r.group(2)
+                op = geom_fn(ty, output, fns[0][0], fns[0][1], fns[0][2], fns[0][3], acc, dims, where)
+                if rhs is not None:   # the trait parameter is the type of the second parameter
+                    want = geom_type(rhs, ty, output, dims, where)
+                    need(len(op["args"]) == (1 if trait == "From" else 2) and op["args"][-1] == (want[1], want[2]), f"{where}: parameter type differs from the trait parameter")
+                names.append(f"{ty}_{trait}{suffix}")
+                body_out.append(geom_lean_op(names[-1], op))
+                continue
+            need(header == f"impl<T:CoordsFloat>{ty}<T>", f"{where}: impl header not recognised")
+            need(output is None, f"{where}: Output in an inherent impl")
+            for fname, params, ret, fbody in fns:
+                if fname in GEOM_PINNED_FNS:
+                    sig, txt, reason = GEOM_PINNED_FNS[fname]
+                    need(f"({geom_norm(params)})->{ret}" == sig and geom_norm(fbody) == txt, f"{where}: fn {fname} differs from the pinned text")
+                    skipped.append(f"{ty}::{fname}")
+                    reasons.append(f"    {rel}: `{ty}::{fname}` — {reason}")
+                    continue
+                names.append(f"{ty}_{fname}")
+                body_out.append(geom_lean_op(names[-1], geom_fn(ty, None, fname, params, ret, fbody, acc, dims, where)))
+        need(len(set(names)) == len(names), f"{rel}: two impls with the same name: {names}")
+        body_out.append(f"/-- every translated function of {rel}, in source order -/")
+        body_out.append(f"def {tag} : List (String × Op) :=\n  [" + ",\n   ".join(f'("{n}", {n})' for n in names) + "]")
+        body_out.append(f"/-- the impl blocks / methods of {rel} that are pinned, not translated -/")
+        body_out.append(f"def {tag}_skipped : List String :=\n  [" + ",\n   ".join(f'"{s}"' for s in skipped) + "]\n")
+    out.append("\n".join(reasons))
+    out.append("  `use` items carry no code.  Any other top-level item, impl item, statement or expression form is refused (`Shape`).\n-/\n")
+    out.append("namespace HC.Gen.Geometry\n")
+    out.append("inductive E where\n  | v (operand comp : Nat)\n  | lit (n : Nat)\n  | add (a b : E)\n  | sub (a b : E)\n  | mul (a b : E)\n"
+               "  | div (a b : E)\n  | neg (a : E)\n  deriving Repr, DecidableEq\n")
+    out.append("structure Op where\n  args : List (Nat × Nat)\n  out : Nat\n  root : Nat\n  guard : List E\n  stmts : List (List (Nat × E))\n"
+               "  ret : List E\n  deriving Repr, DecidableEq\n")
+    out.append("/-- the structs: (name, number of `pub T` fields, derives) -/")
+    out.append("def structs : List (String × Nat × List String) :=\n  [" + ",\n   ".join(
+        f'("{ty}", {dims[ty]}, [' + ", ".join(f'"{d}"' for d in derives[ty]) + "])" for _, ty, _ in GEOM_FILES) + "]\n")
+    out.extend(body_out)
+    out.append("end HC.Gen.Geometry\n")
+    txt = "\n".join(out)
+    if not os.path.exists(GEOM_OUT) or open(GEOM_OUT).read() != txt:
+        open(GEOM_OUT, "w").write(txt)
+    return "gen_lean: geom ok"
+
+
+GENERATORS["geom"] = gen_geom
+
+
+GENERATORS["dispatch3"] = gen_dispatch3
+
+
+# ---------------------------------------------------------------------------------------------
 # dart allocation: add_free_dart(s), insert_free_dart, remove_free_dart(_transac) of dim2/basic_ops.rs and dim3/basic_ops.rs,
 # AttrStorageManager::extend_storages and the bucket a bind policy selects (attributes/manager.rs)
 # ---------------------------------------------------------------------------------------------
@@ -2236,7 +2862,18 @@ def alloc_manager(src):
         need(sorted(row) == list(range(8)), f"{where} {f}: policies {sorted(row)}")
         tables.append([row[k] for k in range(8)])
     need(tables[0] == tables[1], f"{where}: get_map and get_map_mut disagree")
-    return buckets, tables[0]
+    # merge_attributes / split_attributes: one loop over the storages of the bucket of the policy, every storage gets the three
+    # identifiers in the order of the parameters, the first failure ends the call (`?`)
+    loops = []
+    for f, meth in (("merge_attributes", "merge"), ("split_attributes", "split")):
+        sig = "".join(fn_sig(src, f).split())
+        params = re.findall(r"(\w+):DartIdType", sig)
+        need(len(params) == 3 and "orbit_policy:OrbitPolicy" in sig, f"{where} {f}: parameters {params}")
+        lb = "".join(fn_body(src, f).split())
+        m = re.fullmatch(r"forstorageinself\.get_map\(orbit_policy\)\.values\(\)\{storage\.(\w+)\(trans,(\w+),(\w+),(\w+)\)\?;\}Ok\(\(\)\)", lb)
+        need(m and m.group(1) == meth, f"{where} {f}: not one `?`-propagating loop over the storages of the policy's bucket calling `{meth}`")
+        loops.append([params.index(m.group(k)) for k in (2, 3, 4)])
+    return buckets, tables[0], loops
 
 
 def gen_alloc():
@@ -2265,9 +2902,13 @@ def gen_alloc():
         out.append(f"def insertFreeDart{dim} : List Nat := {ins}")
         out.append(f"def removeFreeDartTx{dim} : List Nat := {rtx}")
         out.append(f"def removeFreeDart{dim} : List Nat := {rm}\n")
-    buckets, table = alloc_manager(mg)
+    buckets, table, loops = alloc_manager(mg)
     out.append(f"def extendStorages : List Nat := {buckets}")
-    out.append(f"def bucketOfPolicy : List Nat := {table}\n")
+    out.append(f"def bucketOfPolicy : List Nat := {table}")
+    out.append("/-- `merge_attributes` / `split_attributes`: ONE loop over `self.get_map(orbit_policy).values()`, every storage is handed the three\n"
+               "    identifier parameters in this order (indices into the parameter list), the first error ends the call -/")
+    out.append(f"def mergeAttributesArgs : List Nat := {loops[0]}")
+    out.append(f"def splitAttributesArgs : List Nat := {loops[1]}\n")
     out.append("end HC.Gen.Alloc\n")
     txt = "\n".join(out)
     if not os.path.exists(ALLOC_OUT) or open(ALLOC_OUT).read() != txt:
@@ -2276,6 +2917,626 @@ def gen_alloc():
 
 
 GENERATORS["alloc"] = gen_alloc
+
+
+# ---------------------------------------------------------------------------------------------
+# remeshing kernels: swap_edge (honeycomb-kernels/src/remeshing/swap.rs), cut_outer_edge / cut_inner_edge (cut.rs), and the
+# dispatch `CMap2::sew::<I>` / `unsew::<I>` / `force_sew::<I>` / `force_unsew::<I>` (honeycomb-core/src/cmap/dim2/sews/mod.rs)
+# ---------------------------------------------------------------------------------------------
+
+REMESH_SWAP_RS = os.environ.get("GEN_LEAN_SWAP_RS", "/repo/honeycomb-kernels/src/remeshing/swap.rs")
+REMESH_CUT_RS = os.environ.get("GEN_LEAN_CUT_RS", "/repo/honeycomb-kernels/src/remeshing/cut.rs")
+REMESH_MOD_RS = os.environ.get("GEN_LEAN_SEWS2_MOD_RS", "/repo/honeycomb-core/src/cmap/dim2/sews/mod.rs")
+REMESH_OUT = os.environ.get("GEN_LEAN_REMESH_OUT", os.path.join(VERIF, "lean", "Honeycomb", "Gen", "Remesh.lean"))
+REMESH_CALLEE = {"one_sew": 0, "two_sew": 1, "one_unsew": 2, "two_unsew": 3}
+REMESH_KIND = {"VertexAnchor": 0, "EdgeAnchor": 1, "FaceAnchor": 2}
+REMESH_NULL = {"NULL_DART_ID": 10, "NULL_EDGE_ID": 11}
+REMESH_ID_FN = {"vertex_id_transac": 7, "face_id_transac": 8, "edge_id_transac": 9}
+REMESH_CAST = r"(?: as (?:DartIdType|EdgeIdType|VertexIdType|FaceIdType))?"
+
+
+def remesh_norm(s):
+    """one space between two word characters, none elsewhere"""
+    return re.sub(r" ?([^\w ]) ?", r"\1", " ".join(s.split()))
+
+
+def remesh_dispatch(src):
+    """[(k, I, callee, positions of the callee's arguments among the dispatcher's dart parameters)] for
+    k = 0 `sew`, 1 `unsew`, 2 `force_sew`, 3 `force_unsew`"""
+    rows = []
+    for k, (fname, ps) in enumerate([("sew", ["ld", "rd"]), ("unsew", ["ld"]), ("force_sew", ["ld", "rd"]), ("force_unsew", ["ld"])]):
+        where = f"dim2/sews/mod.rs {fname}"
+        forced = k >= 2
+        sig = remesh_norm(fn_sig(src, fname))
+        want = "<const I:u8>(&self," + ("" if forced else "trans:&mut Transaction,") + ",".join(p + ":DartIdType" for p in ps)
+        need(sig.startswith(want) and re.fullmatch(r",?\)->.*", sig[len(want):]), f"{where}: signature {sig!r}")
+        body = remesh_norm(fn_body(src, fname))
+        m = re.fullmatch(r"assert!\(I<3\);assert_ne!\(I,0\);match I\{(.*)\}", body)
+        need(m, f"{where}: body is not `assert!(I < 3); assert_ne!(I, 0); match I {{ … }}`: {body[:80]!r}")
+        arms = split_top(m.group(1))
+        need(arms and arms[-1] == "_=>unreachable!()", f"{where}: last arm is not `_ => unreachable!()`")
+        seen = []
+        for arm in arms[:-1]:
+            call = r"self\.(\w+)\(trans((?:,\w+)*)\)"
+            a = re.fullmatch(r"(\d+)=>" + (r"atomically_with_err\(\|trans\|" + call + r"\)" if forced else call), arm)
+            need(a, f"{where}: arm not recognised: {arm!r}")
+            i, callee, args = int(a.group(1)), a.group(2), [x for x in a.group(3).split(",") if x]
+            need(callee in REMESH_CALLEE, f"{where}: unknown callee {callee!r}")
+            need(i not in seen, f"{where}: arm {i} twice")
+            need(all(x in ps for x in args), f"{where}: arguments {args}")
+            need(len(args) == (2 if REMESH_CALLEE[callee] < 2 else 1), f"{where}: arity of {callee}")
+            seen.append(i)
+            rows.append((k, i, REMESH_CALLEE[callee], [ps.index(x) for x in args]))
+    return rows
+
+
+def remesh_enum(src, name):
+    """variant names of `pub enum name` in declaration order (payloads dropped)"""
+    m = re.search(r"\bpub enum " + name + r"\b", src)
+    need(m, f"enum {name} not found")
+    body, _ = block_after(src, m.end(), f"enum {name}")
+    body = re.sub(r"#\[[^\]]*\]", " ", body)
+    out = []
+    for v in split_top(body):
+        mm = re.fullmatch(r"(\w+)(?:\(.*\))?", "".join(v.split()))
+        need(mm, f"enum {name}: variant not recognised: {v!r}")
+        out.append(mm.group(1))
+    need(len(set(out)) == len(out) and out, f"enum {name}: variants {out}")
+    return out
+
+
+def remesh_fn(src, fname, label, nnew, errty, errs):
+    """instructions of one kernel; `nnew` = length of the array of new darts (0: no such parameter)"""
+    where = f"{label} {fname}"
+    sig = remesh_norm(fn_sig(src, fname))
+    nds = [f"nd{j + 1}" for j in range(nnew)]
+    want = "<T:CoordsFloat>(t:&mut Transaction,map:&CMap2<T>,e:EdgeIdType," + \
+           (f"[{','.join(nds)}]:[DartIdType;{nnew}]," if nnew else "") + f")->TransactionClosureResult<(),{errty}>"
+    need(sig == want, f"{where}: signature {sig!r}")
+    # name -> (operand, type); types: "n" number (dart / cell id), ("opt", K) Option<K-anchor>, ("anch", K), "vtx"
+    base = {"e": (0, "n")}
+    for j, p in enumerate(nds):
+        base[p] = (1 + j, "n")
+    for c, v in REMESH_NULL.items():
+        base[c] = (v, "n")
+    nvars = [0]
+    A = r"(\w+)" + REMESH_CAST          # an atom: a name, possibly cast between the (integer) identifier types
+
+    def block(body, names):
+        out, pos = [], 0
+
+        def val(tok, ty="n"):
+            need(tok in names, f"{where}: unknown name {tok!r}")
+            need(names[tok][1] == ty, f"{where}: {tok} has type {names[tok][1]}, expected {ty}")
+            return names[tok][0]
+
+        def bind(name, ty):
+            need(name not in names, f"{where}: {name} bound twice")
+            names[name] = (20 + nvars[0], ty)
+            nvars[0] += 1
+
+        def rhs(e):
+            """one right-hand side of a `let`: returns ("alias", operand) or ("ins", instruction)"""
+            m = re.fullmatch(A, e)
+            if m:
+                return ("alias", val(m.group(1)))
+            m = re.fullmatch(r"map\.beta_transac::<(\d)>\(t," + A + r"\)\?", e)
+            if m:
+                return ("ins", (1, [int(m.group(1)), val(m.group(2))]))
+            m = re.fullmatch(r"map\.(vertex_id_transac|face_id_transac|edge_id_transac)\(t," + A + r"\)\?", e)
+            if m:
+                return ("ins", (REMESH_ID_FN[m.group(1)], [val(m.group(2))]))
+            raise Shape(f"{where}: expression not recognised: {e[:90]!r}")
+
+        def let(name, e):
+            kind, x = rhs(e)
+            if kind == "alias":
+                need(name not in names, f"{where}: {name} bound twice")
+                names[name] = (x, "n")
+            else:
+                out.append(x)
+                bind(name, "n")
+
+        while pos < len(body):
+            rest = body[pos:]
+            m = re.match(r"if " + A + "==" + A + r"\{abort\(" + errty + r"::(\w+)\)\?;\}", rest)
+            if m:
+                need(m.group(3) in errs, f"{where}: unknown error variant {m.group(3)}")
+                out.append((0, [val(m.group(1)), val(m.group(2)), errs.index(m.group(3))]))
+                pos += m.end()
+                continue
+            b = r"map\.beta_transac::<(\d)>\(t," + A + r"\)\?"
+            m = re.match(r"if " + b + "!=" + A + r"\|\|" + b + "!=" + A + r"\{abort\(" + errty + r"::(\w+)\)\?;\}", rest)
+            if m:
+                g = m.groups()
+                need(g[6] in errs, f"{where}: unknown error variant {g[6]}")
+                out.append((2, [int(g[0]), val(g[1]), val(g[2]), int(g[3]), val(g[4]), val(g[5]), errs.index(g[6])]))
+                pos += m.end()
+                continue
+            call = r"map\.(sew|unsew)::<(\d)>\(t," + A + r"(?:," + A + r")?\)"
+            m = re.match(r"try_or_coerce!\(" + call + "," + errty + r"\);", rest) or re.match(call + r"\?;", rest)
+            if m:
+                k = 0 if m.group(1) == "sew" else 1
+                need((m.group(4) is not None) == (k == 0), f"{where}: arity of {m.group(1)}")
+                out.append((3, [k, int(m.group(2)), val(m.group(3))] + ([val(m.group(4))] if k == 0 else [])))
+                pos += m.end()
+                continue
+            m = re.match(r"try_or_coerce!\(map\.link::<(\d)>\(t," + A + "," + A + r"\)," + errty + r"\);", rest)
+            if m:
+                out.append((4, [int(m.group(1)), val(m.group(2)), val(m.group(3))]))
+                pos += m.end()
+                continue
+            m = re.match(r"let (\w+)=if map\.contains_attribute::<(\w+)>\(\)\{let (\w+)=map\.face_id_transac\(t," + A +
+                         r"\)\?;map\.remove_attribute::<(\w+)>\(t,(\w+)\)\?\}else\{None\};", rest)
+            if m:
+                g = m.groups()
+                need(g[1] in REMESH_KIND and g[1] == g[4], f"{where}: attribute kinds {g[1]} / {g[4]}")
+                need(g[2] == g[5] and g[2] not in names, f"{where}: the removed identifier is not the face identifier just computed")
+                out.append((5, [REMESH_KIND[g[1]], val(g[3])]))
+                bind(g[0], ("opt", REMESH_KIND[g[1]]))
+                pos += m.end()
+                continue
+            m = re.match(r"let (\w+)=if map\.contains_attribute::<(\w+)>\(\)\{map\.read_attribute::<(\w+)>\(t," + A +
+                         r"\)\?\}else\{None\};", rest)
+            if m:
+                g = m.groups()
+                need(g[1] in REMESH_KIND and g[1] == g[2], f"{where}: attribute kinds {g[1]} / {g[2]}")
+                out.append((6, [REMESH_KIND[g[1]], val(g[3])]))
+                bind(g[0], ("opt", REMESH_KIND[g[1]]))
+                pos += m.end()
+                continue
+            rv = r"map\.read_vertex\(t," + A + r"\)\?"
+            m = re.match(r"let (\w+)=match\(" + rv + "," + rv + r"\)\{\(Some\((\w+)\),Some\((\w+)\)\)=>Vertex2::average\(&(\w+),&(\w+)\),"
+                         r"_=>retry\(\)\?,?\};", rest)
+            if m:
+                g = m.groups()
+                need((g[3], g[4]) == (g[5], g[6]) and g[3] != g[4], f"{where}: the average is not taken of the two values read, in order")
+                out.append((10, [val(g[1]), val(g[2])]))
+                bind(g[0], "vtx")
+                pos += m.end()
+                continue
+            m = re.match(r"let (\w+)=([^;{}]+);", rest)
+            if m:
+                let(m.group(1), m.group(2))
+                pos += m.end()
+                continue
+            m = re.match(r"let\((\w+),(\w+)\)=\(([^;{}]+)\);", rest)
+            if m:
+                parts = split_top(m.group(3))
+                need(len(parts) == 2, f"{where}: tuple `let` with {len(parts)} components")
+                let(m.group(1), parts[0])         # evaluated left to right
+                let(m.group(2), parts[1])
+                pos += m.end()
+                continue
+            m = re.match(r"map\.write_vertex\(t," + A + r",(\w+)\)\?;", rest)
+            if m:
+                out.append((11, [val(m.group(1)), val(m.group(2), "vtx")]))
+                pos += m.end()
+                continue
+            m = re.match(r"map\.write_attribute\(t," + A + r",(?:(\w+)::from\((\w+)\)|(\w+))\)\?;", rest)
+            if m:
+                g = m.groups()
+                a = g[2] if g[2] is not None else g[3]
+                need(a in names and isinstance(names[a][1], tuple) and names[a][1][0] == "anch", f"{where}: written value {a!r} is not an anchor")
+                kfrom = names[a][1][1]
+                if g[1] is not None:
+                    need(g[1] in REMESH_KIND and REMESH_KIND[g[1]] < kfrom, f"{where}: conversion {g[1]}::from of a kind-{kfrom} anchor")
+                    kto = REMESH_KIND[g[1]]
+                else:
+                    kto = kfrom
+                # the attribute written is the one the TYPE of the value selects
+                out.append((13, [kto, val(g[0]), names[a][0], kfrom]))
+                pos += m.end()
+                continue
+            m = re.match(r"if let Some\((\w+)\)=(\w+)\{", rest)
+            if m:
+                need(m.group(2) in names and isinstance(names[m.group(2)][1], tuple) and names[m.group(2)][1][0] == "opt",
+                     f"{where}: `if let Some` on {m.group(2)!r}")
+                blk, end = block_after(rest, m.end() - 1, where)
+                need(not rest.startswith("else", end), f"{where}: unexpected `else`")
+                inner = dict(names)
+                need(m.group(1) not in inner, f"{where}: {m.group(1)} bound twice")
+                saved = nvars[0]
+                inner[m.group(1)] = (20 + nvars[0], ("anch", names[m.group(2)][1][1]))
+                nvars[0] += 1
+                ins = block(blk, inner)
+                nvars[0] = saved                   # the bindings of the block end with it
+                out.append((12, [names[m.group(2)][0], len(ins)]))
+                out.extend(ins)
+                pos += end
+                continue
+            m = re.match(r"if map\.contains_attribute::<(\w+)>\(\)\{", rest)
+            if m:
+                need(m.group(1) in REMESH_KIND, f"{where}: unknown attribute {m.group(1)}")
+                blk, end = block_after(rest, m.end() - 1, where)
+                need(not rest.startswith("else", end), f"{where}: unexpected `else`")
+                saved = nvars[0]
+                ins = block(blk, dict(names))
+                nvars[0] = saved
+                out.append((14, [REMESH_KIND[m.group(1)], len(ins)]))
+                out.extend(ins)
+                pos += end
+                continue
+            raise Shape(f"{where}: statement not recognised at {rest[:90]!r}")
+        return out
+
+    body = remesh_norm(fn_body(src, fname))
+    need(body.endswith("Ok(())"), f"{where}: does not end with Ok(())")
+    return block(body[:-len("Ok(())")], dict(base))
+
+
+def gen_remesh():
+    swap = strip_comments(open(REMESH_SWAP_RS).read())
+    cut = strip_comments(open(REMESH_CUT_RS).read())
+    mod = strip_comments(open(REMESH_MOD_RS).read())
+    disp = remesh_dispatch(mod)
+    errs = remesh_enum(swap, "EdgeSwapError")
+    fns = [("swap_edge", remesh_fn(swap, "swap_edge", "remeshing/swap.rs", 0, "EdgeSwapError", errs)),
+           ("cut_outer_edge", remesh_fn(cut, "cut_outer_edge", "remeshing/cut.rs", 3, "SewError", [])),
+           ("cut_inner_edge", remesh_fn(cut, "cut_inner_edge", "remeshing/cut.rs", 6, "SewError", []))]
+    out = ["/-\n  GENERATED by /verif/tools/gen_lean.py from\n  /repo/honeycomb-kernels/src/remeshing/swap.rs, cut.rs and /repo/honeycomb-core/src/cmap/dim2/sews/mod.rs — DO NOT EDIT.\n"
+           "  Regenerated by tools/check.py before every build of a module that imports it.\n\n"
+           "  `sewDispatch`: the arms of `match I` in `CMap2::sew::<I>` (k = 0), `unsew::<I>` (1), `force_sew::<I>` (2), `force_unsew::<I>` (3)\n"
+           "  as (k, I, callee, positions of the callee's arguments among the dart parameters (ld, rd) of the dispatcher);\n"
+           "  callee: 0 = one_sew, 1 = two_sew, 2 = one_unsew, 3 = two_unsew.  (Every function starts with `assert!(I < 3); assert_ne!(I, 0)`\n"
+           "  and ends with `_ => unreachable!()`; the `force_` arms wrap the call in `atomically_with_err(|trans| …)`.)\n"
+           "  `swapErrors`: the variants of `EdgeSwapError` in declaration order.\n\n"
+           "  `swap_edge(t, map, e)`, `cut_outer_edge(t, map, e, [nd1, nd2, nd3])`, `cut_inner_edge(t, map, e, [nd1, …, nd6])` as (opcode, operands):\n"
+           "    (0, [a, b, v])          if a == b { abort(EdgeSwapError::<variant v>)?; }\n"
+           "    (1, [i, a])             let x = map.beta_transac::<i>(t, a)?                         (binds the next variable)\n"
+           "    (2, [i, a, b, j, c, d, v])  if map.beta_transac::<i>(t, a)? != b || map.beta_transac::<j>(t, c)? != d { abort(<variant v>)?; }\n"
+           "    (3, [0, I, a, b])       map.sew::<I>(t, a, b), error propagated (`try_or_coerce!(…, <error type of the function>)` or `?`)\n"
+           "    (3, [1, I, a])          map.unsew::<I>(t, a), likewise\n"
+           "    (4, [I, a, b])          try_or_coerce!(map.link::<I>(t, a, b), SewError)\n"
+           "    (5, [K, a])             let x = if map.contains_attribute::<K>() { let fid = map.face_id_transac(t, a)?;\n"
+           "                                     map.remove_attribute::<K>(t, fid)? } else { None }     (binds an Option<K>)\n"
+           "    (6, [K, a])             let x = if map.contains_attribute::<K>() { map.read_attribute::<K>(t, a)? } else { None }   (binds)\n"
+           "    (7 / 8 / 9, [a])        let x = map.vertex_id_transac / face_id_transac / edge_id_transac (t, a)?   (binds)\n"
+           "    (10, [a, b])            let x = match (map.read_vertex(t, a)?, map.read_vertex(t, b)?) { (Some(v1), Some(v2)) =>\n"
+           "                                     Vertex2::average(&v1, &v2), _ => retry()? }              (binds a vertex value)\n"
+           "    (11, [a, x])            map.write_vertex(t, a, x)?\n"
+           "    (12, [x, n])            if let Some(a) = x { the next n instructions, in which a is the next variable }\n"
+           "    (13, [K, a, x, K'])     map.write_attribute(t, a, v)? where v = x (K' = K, the kind of anchor x is) or v = <K>::from(x) (x of kind K')\n"
+           "    (14, [K, n])            if map.contains_attribute::<K>() { the next n instructions }\n"
+           "  A tuple `let` is its components left to right; `let x = y as DartIdType` is an alias (no instruction); casts between the integer\n"
+           "  identifier types inside arguments are dropped.  Variables bound inside a block end with it.\n"
+           "  operands: 0 = e, 1 … 6 = nd1 … nd6, 10 = NULL_DART_ID, 11 = NULL_EDGE_ID, 20 + j = the j-th variable bound on the path taken;\n"
+           "  K: 0 = VertexAnchor, 1 = EdgeAnchor, 2 = FaceAnchor.\n"
+           "  Props/C15Gen.lean interprets these lists and proves them EQUAL to `swapEdge` (Model/Kernels/Swap.lean), `cutOuterEdge`,\n"
+           "  `cutInnerEdge` (Model/Kernels/Cut.lean).\n-/\n",
+           "namespace HC.Gen.Remesh\n"]
+    out.append("/-- `CMap2::sew` / `unsew` / `force_sew` / `force_unsew` -/\ndef sewDispatch : List (Nat × Nat × Nat × List Nat) := [" +
+               ", ".join(f"({k}, {i}, {c}, [{', '.join(map(str, a))}])" for k, i, c, a in disp) + "]\n")
+    out.append("/-- `enum EdgeSwapError` -/\ndef swapErrors : List String := [" + ", ".join(f'"{v}"' for v in errs) + "]\n")
+    for f, ins in fns:
+        camel = re.sub(r"_(\w)", lambda m: m.group(1).upper(), f)
+        out.append(f"/-- `{f}` -/\ndef {camel} : List (Nat × List Nat) := [" +
+                   ", ".join(f"({op}, [{', '.join(map(str, a))}])" for op, a in ins) + "]\n")
+    out.append("end HC.Gen.Remesh\n")
+    txt = "\n".join(out)
+    if not os.path.exists(REMESH_OUT) or open(REMESH_OUT).read() != txt:
+        open(REMESH_OUT, "w").write(txt)
+    return f"gen_lean: remesh ok ({len(disp)} dispatch arms, {sum(len(i) for _, i in fns)} instructions)"
+
+
+GENERATORS["remesh"] = gen_remesh
+
+
+# ---------------------------------------------------------------------------------------------
+# single-vertex insertion kernel: `is_free_transac` and `insert_vertex_on_edge` of honeycomb-kernels/src/cell_insertion/vertices.rs,
+# with the dispatch of the public `CMap2::link::<I>` / `unlink::<I>` (dim2/links/mod.rs) and the bodies of the internal
+# `one_link` / `one_unlink` (dim2/links/one.rs), `two_link` / `two_unlink` (dim2/links/two.rs) it calls
+# ---------------------------------------------------------------------------------------------
+
+VINS_RS = os.environ.get("GEN_LEAN_VINS_RS", "/repo/honeycomb-kernels/src/cell_insertion/vertices.rs")
+LINKS2_MOD_RS = os.environ.get("GEN_LEAN_LINKS2_MOD_RS", "/repo/honeycomb-core/src/cmap/dim2/links/mod.rs")
+LINKS2_ONE_RS = os.environ.get("GEN_LEAN_LINKS2_ONE_RS", "/repo/honeycomb-core/src/cmap/dim2/links/one.rs")
+LINKS2_TWO_RS = os.environ.get("GEN_LEAN_LINKS2_TWO_RS", "/repo/honeycomb-core/src/cmap/dim2/links/two.rs")
+VINS_OUT = os.environ.get("GEN_LEAN_VINS_OUT", os.path.join(VERIF, "lean", "Honeycomb", "Gen", "VertexInsertion.lean"))
+VINS_ERRS = {"VertexBound": 0, "UndefinedEdge": 1, "InvalidDarts": 2}
+VINS_LINK_FNS = {"one_link": 0, "two_link": 1, "one_unlink": 2, "two_unlink": 3}
+VINS_CORES = {"one_link_core": 0, "two_link_core": 1, "three_link_core": 2, "one_unlink_core": 3, "two_unlink_core": 4, "three_unlink_core": 5}
+
+
+def vins_free(src):
+    """`is_free_transac`: the β indices tested `== NULL_DART_ID` on `dart_id`, in order, joined by the short-circuit `&&`"""
+    where = "cell_insertion/vertices.rs is_free_transac"
+    sig = "".join(fn_sig(src, "is_free_transac").split())
+    need(re.fullmatch(r"<T:CoordsFloat>\(cmap:&CMap2<T>,trans:&mutTransaction,dart_id:DartIdType,?\)->StmClosureResult<bool>", sig),
+         f"{where}: signature {sig!r}")
+    body = "".join(fn_body(src, "is_free_transac").split())
+    m = re.fullmatch(r"Ok\((.+)\)", body)
+    need(m, f"{where}: body is not a single `Ok(…)`: {body[:90]!r}")
+    idx = []
+    for c in m.group(1).split("&&"):
+        h = re.fullmatch(r"cmap\.beta_transac::<(\d)>\(trans,dart_id\)\?==NULL_DART_ID", c)
+        need(h, f"{where}: conjunct not recognised: {c!r}")
+        idx.append(int(h.group(1)))
+    need(idx, f"{where}: no conjunct")
+    return idx
+
+
+def vins_dispatch(src, fname, params):
+    """`CMap2::link::<I>` / `unlink::<I>`: for every arm of `match I`, (I, [internal function, positions of the arguments handed on])"""
+    where = f"dim2/links/mod.rs {fname}"
+    sig = "".join(fn_sig(src, fname).split())
+    got = re.findall(r"(\w+):DartIdType", sig)
+    need(got == params and sig.startswith("<constI:u8>(&self,trans:&mutTransaction,"), f"{where}: signature {sig!r}")
+    body = "".join(fn_body(src, fname).split())
+    m = re.fullmatch(r"assert!\(I<3\);assert_ne!\(I,0\);matchI\{(.+)\}", body)
+    need(m, f"{where}: body not recognised: {body[:120]!r}")
+    arms = split_top(m.group(1))
+    need(arms and arms[-1] == "_=>unreachable!()", f"{where}: the last arm is not `_ => unreachable!()`")
+    rows, seen = [], set()
+    for a in arms[:-1]:
+        h = re.fullmatch(r"(\d+)=>self\.(\w+)\(trans,([\w,]*)\)", a)
+        need(h, f"{where}: arm not recognised: {a!r}")
+        i = int(h.group(1))
+        need(i not in seen, f"{where}: arm {i} twice")
+        seen.add(i)
+        need(h.group(2) in VINS_LINK_FNS, f"{where}: unknown internal function {h.group(2)}")
+        args = [x for x in h.group(3).split(",") if x]
+        need(all(x in params for x in args) and len(args) == len(params), f"{where}: arguments {args} of arm {i}")
+        rows.append((i, [VINS_LINK_FNS[h.group(2)]] + [params.index(x) for x in args]))
+    return rows
+
+
+def vins_link_body(src, fname, label):
+    """`CMap2::one_link` …: (internal function, [core function of components/betas.rs, positions of the arguments handed on])"""
+    where = f"dim2/links/{label} {fname}"
+    sig = "".join(fn_sig(src, fname).split())
+    params = re.findall(r"(\w+):DartIdType", sig)
+    need(sig.startswith("(&self,trans:&mutTransaction,") and sig.endswith("->TransactionClosureResult<(),LinkError>")
+         and len(params) == (2 if "unlink" not in fname else 1), f"{where}: signature {sig!r}")
+    body = "".join(fn_body(src, fname).split())
+    h = re.fullmatch(r"self\.betas\.(\w+)\(trans,([\w,]*)\)", body)
+    need(h, f"{where}: body is not a single core call: {body[:120]!r}")
+    need(h.group(1) in VINS_CORES, f"{where}: unknown core {h.group(1)}")
+    args = [x for x in h.group(2).split(",") if x]
+    need(all(x in params for x in args) and len(args) == len(params), f"{where}: arguments {args}")
+    return (VINS_LINK_FNS[fname], [VINS_CORES[h.group(1)]] + [params.index(x) for x in args])
+
+
+def vins_instrs(src):
+    where = "cell_insertion/vertices.rs insert_vertex_on_edge"
+    fname = "insert_vertex_on_edge"
+    sig = "".join(fn_sig(src, fname).split())
+    need(re.fullmatch(r"<T:CoordsFloat>\(cmap:&CMap2<T>,trans:&mutTransaction,edge_id:EdgeIdType,new_darts:\(DartIdType,DartIdType\),"
+                      r"midpoint_vertex:Option<T>,?\)->TransactionClosureResult<\(\),VertexInsertionError>", sig), f"{where}: signature {sig!r}")
+    raw = fn_body(src, fname)
+    msgs = []
+
+    def lit(m):
+        s = m.group(1)
+        need(re.fullmatch(r"[A-Za-z0-9 ]+", s), f"{where}: message {s!r} has characters the slug does not cover")
+        msgs.append(s.replace(" ", "-"))
+        return f'"#{len(msgs) - 1}"'
+
+    body = "".join(re.sub(r'"([^"\\\n]*)"', lit, raw).split())
+    need('"' not in re.sub(r'"#\d+"', "", body), f"{where}: string literal not understood")
+
+    OPD = r"([\w.]+)"
+    VE = r"VertexInsertionError::"
+    ABORT_MSG = r"\{abort\(" + VE + r"InvalidDarts\(\"#(\d+)\",?\)\)\?;\}"
+    FREE = r"==NULL_DART_ID\|\|!is_free_transac\(cmap,trans," + OPD + r"\)\?"
+    VID = r"cmap\.vertex_id_transac\(trans," + OPD + r"\)\?"
+    RDV = r"cmap\.read_vertex\(trans," + OPD + r"\)\?"
+
+    def parse(body, st, top):
+        """st = (names, vals, geo, nvars): scoped copies are made for the arms of the final if / else"""
+        names, vals, geo = st["names"], st["vals"], st["geo"]
+
+        def arg(tok):
+            need(tok in names, f"{where}: unknown name {tok!r}")
+            return names[tok]
+
+        def val(tok):
+            need(tok in vals, f"{where}: {tok!r} is not a vertex value")
+            return vals[tok]
+
+        def bind(name):
+            need(name not in vals and name not in geo and not name.startswith("new_darts") and name not in ("edge_id", "NULL_DART_ID"),
+                 f"{where}: {name} cannot be rebound")
+            names[name] = 20 + st["nvars"]          # `let` shadowing is allowed (base_dart2 is read twice)
+            st["nvars"] += 1
+
+        def alias(name, code):
+            need(name not in names and name not in vals and name not in geo, f"{where}: {name} bound twice")
+            names[name] = code
+
+        def err0(k):
+            need(k in ("VertexBound", "UndefinedEdge"), f"{where}: {k} is not a payload-free VertexInsertionError")
+            return VINS_ERRS[k]
+
+        out, pos, ended = [], 0, False
+        while pos < len(body):
+            need(not ended, f"{where}: statements after the end of the block: {body[pos:pos + 80]!r}")
+            m = re.compile(r"ifmidpoint_vertex\.is_some_and\(\|t\|\(t>=T::one\(\)\)\|\(t<=T::zero\(\)\)\)\{abort\(" + VE + r"(\w+)\)\?;\}").match(body, pos)
+            if m:
+                out.append((40, [err0(m.group(1))]))
+                pos = m.end()
+                continue
+            m = re.compile(r"let(\w+)=(\w+)asDartIdType;").match(body, pos)
+            if m:
+                need(m.group(2) == "edge_id", f"{where}: cast of {m.group(2)}")
+                alias(m.group(1), 0)
+                pos = m.end()
+                continue
+            m = re.compile(r"let(\w+)=cmap\.beta_transac::<(\d)>\(trans," + OPD + r"\)\?;").match(body, pos)
+            if m:
+                out.append((1, [int(m.group(2)), arg(m.group(3))]))
+                bind(m.group(1))
+                pos = m.end()
+                continue
+            m = re.compile(r"let(\w+)=" + VID + ";").match(body, pos)
+            if m:
+                out.append((5, [arg(m.group(2))]))
+                bind(m.group(1))
+                pos = m.end()
+                continue
+            m = re.compile(r"let\((\w+),(\w+)\)=\(" + VID + "," + VID + r",?\);").match(body, pos)
+            if m:
+                a, b = arg(m.group(3)), arg(m.group(4))
+                need(m.group(1) != m.group(2), f"{where}: tuple let binds {m.group(1)} twice")
+                out += [(5, [a]), (5, [b])]
+                bind(m.group(1))
+                bind(m.group(2))
+                pos = m.end()
+                continue
+            m = re.compile(r"let(\w+)=new_darts\.([01]);").match(body, pos)
+            if m:
+                alias(m.group(1), 1 + int(m.group(2)))
+                pos = m.end()
+                continue
+            m = re.compile(r"let\((\w+),(\w+)\)=new_darts;").match(body, pos)
+            if m:
+                need(m.group(1) != m.group(2), f"{where}: tuple let binds {m.group(1)} twice")
+                alias(m.group(1), 1)
+                alias(m.group(2), 2)
+                pos = m.end()
+                continue
+            m = re.compile("if" + OPD + FREE + ABORT_MSG).match(body, pos)
+            if m:
+                need(arg(m.group(1)) == arg(m.group(2)), f"{where}: null test on {m.group(1)}, freeness test on {m.group(2)}")
+                out.append((41, [arg(m.group(1)), int(m.group(3))]))
+                pos = m.end()
+                continue
+            m = re.compile("if" + OPD + r"!=NULL_DART_ID&&\(" + OPD + FREE + r"\)" + ABORT_MSG).match(body, pos)
+            if m:
+                need(arg(m.group(2)) == arg(m.group(3)), f"{where}: null test on {m.group(2)}, freeness test on {m.group(3)}")
+                out.append((42, [arg(m.group(1)), arg(m.group(2)), int(m.group(4))]))
+                pos = m.end()
+                continue
+            m = re.compile(r"let\(Some\((\w+)\),Some\((\w+)\)\)=\(" + RDV + "," + RDV + r",?\)else\{abort\(" + VE + r"(\w+)\)\?;?\};").match(body, pos)
+            if m:
+                out.append((44, [arg(m.group(3)), arg(m.group(4)), err0(m.group(5))]))
+                for nm in (m.group(1), m.group(2)):
+                    need(nm not in vals and nm not in names and nm not in geo, f"{where}: {nm} bound twice")
+                    vals[nm] = len(vals)
+                pos = m.end()
+                continue
+            m = re.compile(r"try_or_coerce!\(cmap\.(link|unlink)::<(\d)>\(trans,([\w.,]+?),?\),VertexInsertionError,?\);").match(body, pos)
+            if m:
+                args = m.group(3).split(",")
+                need(len(args) == (2 if m.group(1) == "link" else 1), f"{where}: arity of {m.group(1)}")
+                out.append((46, [0 if m.group(1) == "link" else 1, int(m.group(2)), arg(args[0]), arg(args[1]) if len(args) == 2 else 3]))
+                pos = m.end()
+                continue
+            m = re.compile(r"let(\w+)=(\w+)-(\w+);").match(body, pos)
+            if m:
+                need(m.group(1) not in names and m.group(1) not in vals and m.group(1) not in geo, f"{where}: {m.group(1)} bound twice")
+                geo[m.group(1)] = (val(m.group(2)), val(m.group(3)))
+                pos = m.end()
+                continue
+            m = re.compile(r"cmap\.write_vertex\(trans," + OPD + r",midpoint_vertex\.map_or\(Vertex2::average\(&(\w+),&(\w+)\),\|t\|(\w+)\+(\w+)\*t\),?\)\?;").match(body, pos)
+            if m:
+                need(m.group(5) in geo, f"{where}: {m.group(5)} is not a difference of two vertex values")
+                out.append((47, [arg(m.group(1)), val(m.group(2)), val(m.group(3)), val(m.group(4))] + list(geo[m.group(5)])))
+                pos = m.end()
+                continue
+            m = re.compile("if" + OPD + r"!=NULL_DART_ID\{").match(body, pos)
+            if m:
+                inner, end = block_after(body, m.end() - 1, where)
+                need(not body.startswith("else", end), f"{where}: unexpected `else` after a guarded block")
+                sub = parse(inner, st, False)
+                need(sub and all(op == 46 for op, _ in sub), f"{where}: a guarded block may only contain link / unlink calls")
+                out.append((45, [arg(m.group(1)), len(sub)]))
+                out += sub
+                pos = end
+                continue
+            m = re.compile("if" + OPD + r"==NULL_DART_ID\{").match(body, pos)
+            if m:
+                need(top, f"{where}: nested if / else")
+                th, end = block_after(body, m.end() - 1, where)
+                need(body.startswith("else{", end), f"{where}: `if … == NULL_DART_ID` without else")
+                el, end2 = block_after(body, end + 4, where)
+                need(end2 == len(body), f"{where}: statements after the final if / else")
+                arms = []
+                for blk in (th, el):
+                    need(blk.endswith("Ok(())"), f"{where}: an arm does not end with Ok(())")
+                    sub_st = {"names": dict(names), "vals": dict(vals), "geo": dict(geo), "nvars": st["nvars"]}
+                    arms.append(parse(blk, sub_st, False))
+                out.append((43, [arg(m.group(1)), len(arms[0]), len(arms[1])]))
+                out += arms[0] + arms[1]
+                pos = end2
+                ended = True
+                continue
+            m = re.compile(r"Ok\(\(\)\)$").match(body, pos)
+            if m:
+                need(not top, f"{where}: Ok(()) at top level")
+                pos = m.end()
+                ended = True
+                continue
+            raise Shape(f"{where}: statement not recognised at {body[pos:pos + 100]!r}")
+        if top:
+            need(ended, f"{where}: the function does not end with the if / else on the second read of beta 2")
+        return out
+
+    st = {"names": {"edge_id": 0, "new_darts.0": 1, "new_darts.1": 2, "NULL_DART_ID": 3}, "vals": {}, "geo": {}, "nvars": 0}
+    ins = parse(body, st, True)
+    used = sorted({a[-1] for op, a in ins if op in (41, 42)})
+    need(used == list(range(len(msgs))), f"{where}: string literals {msgs} / used {used}")
+    return ins, msgs
+
+
+def gen_vins():
+    ksrc = strip_comments(open(VINS_RS).read())
+    msrc = strip_comments(open(LINKS2_MOD_RS).read())
+    osrc = strip_comments(open(LINKS2_ONE_RS).read())
+    tsrc = strip_comments(open(LINKS2_TWO_RS).read())
+    free = vins_free(ksrc)
+    ins, msgs = vins_instrs(ksrc)
+    link_arms = vins_dispatch(msrc, "link", ["ld", "rd"])
+    unlink_arms = vins_dispatch(msrc, "unlink", ["ld"])
+    bodies = [vins_link_body(osrc, "one_link", "one.rs"), vins_link_body(tsrc, "two_link", "two.rs"),
+              vins_link_body(osrc, "one_unlink", "one.rs"), vins_link_body(tsrc, "two_unlink", "two.rs")]
+
+    def tab(rows):
+        return "[" + ", ".join(f"({op}, [{', '.join(map(str, a))}])" for op, a in rows) + "]"
+
+    out = ["/-\n  GENERATED by /verif/tools/gen_lean.py from\n  /repo/honeycomb-kernels/src/cell_insertion/vertices.rs and\n"
+           "  /repo/honeycomb-core/src/cmap/dim2/links/mod.rs, one.rs, two.rs — DO NOT EDIT.\n"
+           "  Regenerated by tools/check.py before every build of a module that imports it.\n\n"
+           "  `isFreeTransac`: `is_free_transac(cmap, trans, dart_id)` = the β indices i of the conjuncts\n"
+           "    `cmap.beta_transac::<i>(trans, dart_id)? == NULL_DART_ID`, in source order, joined by the short-circuit `&&`.\n"
+           "  `link2Arms` / `unlink2Arms`: the arms of `match I` in `CMap2::link::<I>(trans, ld, rd)` / `unlink::<I>(trans, ld)`:\n"
+           "    (I, [f, p…])  `I => self.f(trans, args)`; f: 0 = one_link, 1 = two_link, 2 = one_unlink, 3 = two_unlink; p… = for every argument\n"
+           "    handed on, its position among the caller's dart parameters (0 = ld, 1 = rd).\n"
+           "  `links2Bodies`: (f, [c, p…])  the body of the internal function f is the single call `self.betas.c(trans, args)`; c: 0 = one_link_core,\n"
+           "    1 = two_link_core, 2 = three_link_core, 3 = one_unlink_core, 4 = two_unlink_core, 5 = three_unlink_core; p… as above.\n"
+           "  `vinsMsgs`: the `&'static str` payloads of `InvalidDarts`, in source order, blanks replaced by `-` (as the drivers print them).\n"
+           "  `insertVertexOnEdge`: `insert_vertex_on_edge(cmap, trans, edge_id, new_darts, midpoint_vertex)` as (opcode, operands):\n"
+           "    (40, [e])               if midpoint_vertex.is_some_and(|t| (t >= T::one()) | (t <= T::zero())) { abort(e)?; }\n"
+           "    (1, [i, a])             let x = cmap.beta_transac::<i>(trans, a)?                  (binds the next variable)\n"
+           "    (5, [a])                let x = cmap.vertex_id_transac(trans, a)?                  (binds; a tuple `let` is two of these, in order)\n"
+           "    (41, [d, k])            if d == NULL_DART_ID || !is_free_transac(cmap, trans, d)? { abort(InvalidDarts(msg k))?; }\n"
+           "    (42, [g, d, k])         if g != NULL_DART_ID && (d == NULL_DART_ID || !is_free_transac(cmap, trans, d)?) { abort(InvalidDarts(msg k))?; }\n"
+           "    (43, [a, n, m])         if a == NULL_DART_ID { the next n instructions } else { the m instructions after them }   (ends the function)\n"
+           "    (44, [a, b, e])         let (Some(v), Some(w)) = (cmap.read_vertex(trans, a)?, cmap.read_vertex(trans, b)?) else { abort(e)? }\n"
+           "                            (binds the next two VALUE variables)\n"
+           "    (45, [a, n])            if a != NULL_DART_ID { the next n instructions }\n"
+           "    (46, [k, I, a, b])      try_or_coerce!(cmap.link::<I>(trans, a, b), VertexInsertionError) (k = 0) / cmap.unlink::<I>(trans, a) (k = 1, b = 3)\n"
+           "    (47, [x, p, q, r, s, u]) cmap.write_vertex(trans, x, midpoint_vertex.map_or(Vertex2::average(&p, &q), |t| r + seg * t))?\n"
+           "                            where `let seg = s - u;`   (p … u: value variables, 0 = the first bound)\n"
+           "  operands: 0 = edge_id (`as DartIdType`), 1 = new_darts.0, 2 = new_darts.1, 3 = NULL_DART_ID, 20 + j = the j-th variable bound on the\n"
+           "  path taken (a shadowing `let` binds a new one); plain `let x = y` / `let (x, y) = new_darts` are aliases and leave no instruction.\n"
+           "  e: 0 = VertexBound, 1 = UndefinedEdge.  Props/C14Gen.lean interprets these tables and proves them EQUAL to `isFreeTx`, the link\n"
+           "  cores and `insertVertexOnEdge` of Model/Kernels/VertexInsertion.lean.\n-/\n",
+           "namespace HC.Gen\n",
+           "/-- `is_free_transac` -/\ndef isFreeTransac : List Nat := [" + ", ".join(map(str, free)) + "]\n",
+           "/-- `CMap2::link::<I>` -/\ndef link2Arms : List (Nat × List Nat) := " + tab(link_arms) + "\n",
+           "/-- `CMap2::unlink::<I>` -/\ndef unlink2Arms : List (Nat × List Nat) := " + tab(unlink_arms) + "\n",
+           "/-- `CMap2::one_link`, `two_link`, `one_unlink`, `two_unlink` -/\ndef links2Bodies : List (Nat × List Nat) := " + tab(bodies) + "\n",
+           "/-- payloads of `InvalidDarts` -/\ndef vinsMsgs : List String := [" + ", ".join(f'"{s}"' for s in msgs) + "]\n",
+           "/-- `insert_vertex_on_edge` -/\ndef insertVertexOnEdge : List (Nat × List Nat) := " + tab(ins) + "\n",
+           "end HC.Gen\n"]
+    txt = "\n".join(out)
+    if not os.path.exists(VINS_OUT) or open(VINS_OUT).read() != txt:
+        open(VINS_OUT, "w").write(txt)
+    return f"gen_lean: vins ok ({len(ins)} instructions, {len(link_arms) + len(unlink_arms)} dispatch arms, {len(bodies)} link bodies)"
+
+
+GENERATORS["vins"] = gen_vins
 
 
 def run(names):
